@@ -409,4 +409,75 @@ Section T2.
                           st1 st2 (i + 1)) as [s' Hs']; [exact Hg|exact HA|exact HB|lia|intros G; apply F1; lia|intros G; lia|lia|].
              exists s'. exact Hs'.
   Qed.
+
+  Lemma search_rev_spec : forall fuel s st1 st2 i, geo s -> 0 <= rfx s <= nx -> 0 <= rfy s <= ny -> 0 <= i ->
+    (2 * K < i -> st1 = true) -> (2 * K + 1 < i -> st2 = true) ->
+    (Z.to_nat (2 * K + 4 - i) < fuel)%nat ->
+    exists s', search_rev f fuel cfuel s st1 st2 i = Some s' /\ geo s' /\ fwd s' = fwd s /\ ffx s' = ffx s /\ ffy s' = ffy s
+               /\ 0 <= rfx s' <= nx /\ 0 <= rfy s' <= ny /\ rfx s' + rfy s' <= rfx s + rfy s.
+  Proof.
+    induction fuel as [|k IH]; intros s st1 st2 i Hg HA HB Hi F1 F2 Hf; [lia|]. cbn [search_rev].
+    destruct ((st1 && st2) || negb (0 <? budget s))%bool eqn:Stop.
+    { exists s. repeat split; try assumption; try lia; apply Hg. }
+    assert (i <= 2 * K + 1) as Hile.
+    { destruct (Z_le_gt_dec i (2 * K + 1)) as [L|G]; [exact L|]. rewrite F1, F2 in Stop by lia. discriminate. }
+    cbv zeta.
+    pose proof Hg as [Df [Dr [X0 [X1 [X2 [Y0 [Y1 Y2]]]]]]].
+    assert (forall z, (rfx s - z <=? p_x (fwd s)) || (p_y (rev s) <? rfy s + z) = false ->
+                      (rfy s + z <=? p_y (fwd s)) || (p_x (rev s) <? rfx s - z) = false ->
+                      r_equal (f (rfx s - z - 1) (rfy s + z - 1)) = true ->
+                      exists s', match connect f cfuel (rev s) (rfx s - z) (rfy s + z) with
+                                 | Some rp => match follow_rev f cfuel (p_append rp Identity) (p_x (fwd s)) (p_y (fwd s)) with
+                                              | Some rp' => search_rev f k cfuel {| fwd := fwd s; rev := rp'; ffx := ffx s; ffy := ffy s;
+                                                                                  rfx := p_x rp'; rfy := p_y rp'; budget := budget s |} true true (i + 1)
+                                              | None => None end
+                                 | None => None end = Some s'
+                                 /\ geo s' /\ fwd s' = fwd s /\ ffx s' = ffx s /\ ffy s' = ffy s
+                                 /\ 0 <= rfx s' <= nx /\ 0 <= rfy s' <= ny /\ rfx s' + rfy s' <= rfx s + rfy s) as Hmatch.
+    { intros z C1 C2 E.
+      apply orb_false_iff in C1 as [C1a C1b]. apply Z.leb_gt in C1a. apply Z.ltb_ge in C1b.
+      apply orb_false_iff in C2 as [C2a C2b]. apply Z.leb_gt in C2a. apply Z.ltb_ge in C2b.
+      destruct (connect f cfuel (rev s) (rfx s - z) (rfy s + z)) as [rp|] eqn:Ec.
+      2:{ exfalso. unfold connect in Ec. rewrite Dr in Ec. change (0 <? -1) with false in Ec. cbv iota in Ec.
+          revert Ec. apply connect_rev_total; try assumption; try (unfold cfuel; lia). }
+      unfold connect in Ec. rewrite Dr in Ec. change (0 <? -1) with false in Ec. cbv iota in Ec.
+      apply connect_rev_pt in Ec as [Drp [Erx Ery]]; [|assumption|lia|lia].
+      destruct (follow_rev f cfuel (p_append rp Identity) (p_x (fwd s)) (p_y (fwd s))) as [rp'|] eqn:Ef.
+      2:{ exfalso. revert Ef. apply follow_rev_total; [simpl; exact Drp|]. simpl. rewrite Drp. try (unfold cfuel; lia). }
+      apply follow_rev_pt in Ef as [Drp' [[Gx0 Gx1] [[Gy0 Gy1] Gs]]]; [|simpl; exact Drp|simpl; rewrite Drp; lia|simpl; rewrite Drp; lia].
+      simpl in Gx1, Gy1, Gs. rewrite Drp in Gx1, Gy1, Gs.
+      destruct k as [|k']; [lia|]. cbn [search_rev andb orb].
+      eexists. split; [reflexivity|]. cbn [fwd rev ffx ffy rfx rfy budget].
+      repeat split; cbn [fwd rev]; try assumption; try lia. }
+    destruct (zigzag_spec i Hi) as [[m [Hm [Ei Ez]]]|[m [Hm [Ei Ez]]]]; rewrite Ez.
+    - (* even index, z = m >= 0 *)
+      destruct ((rfx s - m <=? p_x (fwd s)) || (p_y (rev s) <? rfy s + m))%bool eqn:C1.
+      + apply IH; [exact Hg|exact HA|exact HB|lia|intros _; reflexivity|intros G; apply F2; lia|lia].
+      + assert (m < K) as HmK.
+        { pose proof C1 as C1'. apply orb_false_iff in C1' as [C1a _]. apply Z.leb_gt in C1a. unfold K. lia. }
+        destruct ((rfy s + m <=? p_y (fwd s)) || (p_x (rev s) <? rfx s - m))%bool eqn:C2.
+        * apply IH; [exact Hg|exact HA|exact HB|lia|intros G; lia|intros _; reflexivity|lia].
+        * destruct (r_equal (f (rfx s - m - 1) (rfy s + m - 1))) eqn:E.
+          -- exact (Hmatch m C1 C2 E).
+          -- destruct (IH {| fwd := fwd s; rev := rev s; ffx := ffx s; ffy := ffy s; rfx := rfx s; rfy := rfy s; budget := budget s - 1 |}
+                          st1 st2 (i + 1)) as [s' Hs']; [exact Hg|exact HA|exact HB|lia|intros G; lia|intros G; apply F2; lia|lia|].
+             exists s'. exact Hs'.
+    - (* odd index, z = -(m+1) < 0 *)
+      replace (rfx s - - (m + 1)) with (rfx s + (m + 1)) by lia. replace (rfy s + - (m + 1)) with (rfy s - (m + 1)) by lia.
+      destruct ((rfx s + (m + 1) <=? p_x (fwd s)) || (p_y (rev s) <? rfy s - (m + 1)))%bool eqn:C1.
+      + assert (m + 1 < K) as HmK.
+        { apply orb_true_iff in C1 as [C|C]; [apply Z.leb_le in C|apply Z.ltb_lt in C]; unfold K; lia. }
+        apply IH; [exact Hg|exact HA|exact HB|lia|intros _; reflexivity|intros G; lia|lia].
+      + destruct ((rfy s - (m + 1) <=? p_y (fwd s)) || (p_x (rev s) <? rfx s + (m + 1)))%bool eqn:C2.
+        * apply IH; [exact Hg|exact HA|exact HB|lia|intros G; apply F1; lia|intros _; reflexivity|lia].
+        * assert (m + 1 < K) as HmK.
+          { pose proof C2 as C2'. apply orb_false_iff in C2' as [C2a _]. apply Z.leb_gt in C2a. unfold K. lia. }
+          destruct (r_equal (f (rfx s + (m + 1) - 1) (rfy s - (m + 1) - 1))) eqn:E.
+          -- specialize (Hmatch (- (m + 1))).
+             replace (rfx s - - (m + 1)) with (rfx s + (m + 1)) in Hmatch by lia.
+             replace (rfy s + - (m + 1)) with (rfy s - (m + 1)) in Hmatch by lia. exact (Hmatch C1 C2 E).
+          -- destruct (IH {| fwd := fwd s; rev := rev s; ffx := ffx s; ffy := ffy s; rfx := rfx s; rfy := rfy s; budget := budget s - 1 |}
+                          st1 st2 (i + 1)) as [s' Hs']; [exact Hg|exact HA|exact HB|lia|intros G; apply F1; lia|intros G; lia|lia|].
+             exists s'. exact Hs'.
+  Qed.
 End T2.
